@@ -53,6 +53,23 @@ Reach_MergeMid == r_lastKind # "MergeMid"
 Reach_Merge0 == r_lastKind # "Merge0"
 Reach_MergeEnd == r_lastKind # "MergeEnd"
 Reach_SkipLeft == ~(phase = "resolve" /\ r_i0 < r_i1 - 1 /\ r_i0 >= 1)
+\* a left chain member that an earlier resolution cut down to exactly one pair is about to be compared again
+Reach_OnePairLeft == ~(/\ phase = "resolve" /\ r_status = "running" /\ r_lastKind \in {"Merge0", "MergeEnd", "MergeMid"}
+                       /\ r_i0 >= 1 /\ r_i1 <= Len(r_chain) /\ r_i0 < r_i1
+                       /\ Cardinality(R!PairIdx(r_chain[r_i0])) = 1 /\ R!HasPairs(r_chain[r_i1])
+                       /\ Len(segsAll[r_chain[r_i0].src].pos) > Len(r_chain[r_i0].pos))
+\* model-guided inputs: whenever a behaviour (random walk with large constants) reaches one of the resolver situations that
+\* random real inputs rarely reach, its input is printed; the harness runs those inputs through the real aligner
+RareSituation ==
+    /\ phase = "resolve" /\ r_status = "running"
+    /\ \/ ~Reach_OnePairLeft                                   \* a member cut down to one pair is compared again
+       \/ r_lastKind = "MergeMid"                              \* a cut strictly inside the overlap
+       \/ (r_i0 >= 1 /\ r_i0 < r_i1 - 1)                        \* the comparison skipped an emptied member
+ProbeQ == IF (/\ ~Reach_OnePairLeft /\ ain.rev
+              /\ Id(R!FirstP(r_chain[r_i1]).r) > Id(R!LastP(r_chain[r_i0]).r)
+              /\ Id(R!FirstP(r_chain[r_i1]).q) > Id(R!LastP(r_chain[r_i0]).q))
+          THEN PrintT("X" \o ToJson(ain)) ELSE TRUE
+GuidedInv == IF RareSituation THEN PrintT("X" \o ToJson(ain)) ELSE TRUE
 ExportInv == phase = "startPeak" /\ k = 1 => PrintT("X" \o ToJson(ain))
 ExportStop == phase \in {"gen", "startPeak"} /\ k = 1
 =============================================================================
